@@ -26,6 +26,67 @@ func (r *recReader) Read(p []byte) (int, error) {
 	return n, err
 }
 
+// replayReader feeds a recorded random stream back (zeros once exhausted, which is flagged).
+type replayReader struct {
+	data      []byte
+	pos       int
+	exhausted bool
+}
+
+func (r *replayReader) Read(p []byte) (int, error) {
+	for i := range p {
+		if r.pos < len(r.data) {
+			p[i] = r.data[r.pos]
+			r.pos++
+		} else {
+			p[i] = 0
+			r.exhausted = true
+		}
+	}
+	return len(p), nil
+}
+
+// influence: re-run Split on the recorded random stream with ONE coefficient byte changed and report which
+// share columns (secret byte positions) change. Independence of the per-byte polynomials (what the
+// "fewer than t shares reveal nothing" half of C20 rests on) means exactly one column changes.
+func influence(secret []byte, n, th int, recorded []byte, relpos int, orig [][]byte) string {
+	need := len(secret) * (th - 1)
+	mod := append([]byte{}, recorded...)
+	mod[len(mod)-need+relpos] ^= 0x5a
+	rr := &replayReader{data: mod}
+	old := rand.Reader
+	rand.Reader = rr
+	parts, err := Split(secret, n, th)
+	rand.Reader = old
+	if err != nil {
+		return "err"
+	}
+	if rr.exhausted || rr.pos != len(mod) {
+		return "stream-mismatch"
+	}
+	cols := []string{}
+	for idx := 0; idx <= len(secret); idx++ {
+		changed := false
+		for i := range parts {
+			if parts[i][idx] != orig[i][idx] {
+				changed = true
+			}
+		}
+		if changed {
+			if idx == len(secret) {
+				cols = append(cols, "x")
+			} else {
+				cols = append(cols, vh.I(int64(idx)))
+			}
+		}
+	}
+	res := "cols:" + strings.Join(cols, ",")
+	if len(cols) != 1 {
+		res += "!VIOL:one random coefficient byte influences " + vh.I(int64(len(cols))) + " share columns - polynomials of different secret bytes are not independent, so sub-threshold shares leak"
+	}
+	return res
+}
+
 func sharesStr(parts [][]byte) string {
 	ss := make([]string, len(parts))
 	for i, p := range parts {
@@ -165,6 +226,12 @@ func TestVerifC20(t *testing.T) {
 		}
 		coeffs := recorded[len(recorded)-need:]
 		out.Op(sharesStr(parts), "split", vh.Hex(secret), vh.Hex(xs), vh.Hex(coeffs), vh.I(int64(th)))
+		if n <= 12 {
+			for q := 0; q < 3; q++ {
+				relpos := rng.Intn(need)
+				out.Op(influence(secret, n, th, append([]byte{}, recorded...), relpos, parts), "influence", vh.I(int64(l)), vh.I(int64(th)), vh.I(int64(relpos)))
+			}
+		}
 
 		// combine: subsets of size >= th (exhaustive for n <= 6), in shuffled order; and below-threshold subsets
 		subsets := [][]int{}
